@@ -13,7 +13,7 @@ LEVEL = 'model_checking'
 RULE = ('programs = every body tree with <= N operators over the 8 leaves in the context of C05 (callee with a later '
         'clause, caller with alternatives, a dynamic fact) and the meta-call programs of C09 over o/1, m/1, r/2; for '
         'each program EVERY non-empty subset of the fact predicates it uses (z/0 o/1 m/1 k/1, r/2) is re-implemented as a '
-        'registered Python generator function x registration style {inferred, explicit, explicit with a generic *args function, variadic arity; inferred also for a bound method, for a functools.wraps-decorated function and for a function that returns a cursor object (an iterator with close(), also kept in a registry) instead of a generator} x yielded '
+        'registered Python generator function x registration style {inferred, explicit, explicit with a generic *args function, variadic arity given as -1 and as -3; inferred also for a bound method, for a functools.wraps-decorated function and for a function that returns a cursor object (an iterator with close(), also kept in a registry) instead of a generator} x yielded '
         'value {False, True} [x a dynamic fact next to the Python predicate] [x on a fresh engine / on an engine that was queried before and had an earlier version of the predicates registered]; answers compared with RefProlog run on '
         'the all-Prolog program. For every program/subset additionally one run per event j (entry or resumption of a '
         'Python predicate) in which the predicate raises a fresh exception object - of each of 7 classes (a custom one, TypeError, ValueError, RuntimeError, KeyError, AttributeError, AssertionError), through an inferred-arity and through a variadic registration - at its j-th event: the consumer must '
@@ -77,6 +77,11 @@ def make_py(yp, key, style, yv, events):
         def pred(*args):
             return body(args)
         return pred, -1
+    if style == 'variadic-other-negative':
+        # "if arity is a negative integer, the function has a variable arity": not only -1
+        def pred(*args):
+            return body(args)
+        return pred, -3
     if style == 'explicit-generic':
         # one generic function for every arity, registered with the arity given explicitly
         def pred(*args):
@@ -197,7 +202,7 @@ def run_variant(pytext, clauses, goal, pykeys, style, yv, dyn, exp, fire=None, w
         for key in pykeys:
             def old_version(*args):
                 return iter(())
-            yp.register_function(key[0], old_version, -1 if style == 'variadic' else key[1])
+            yp.register_function(key[0], old_version, -1 if style.startswith('variadic') else key[1])
         _probe(yp, goal)
     for key in pykeys:
         fn, ar = make_py(yp, key, style, yv, events)
@@ -257,10 +262,10 @@ def check_program(acc, index, clauses, goal, dyn_extra, label):
         exp = [anonymize(a, anon_ix) for a in exp]
     subsets = [s for r in range(1, len(used) + 1) for s in itertools.combinations(used, r)]
     for sub in subsets:
-        for style in ('inferred', 'explicit', 'explicit-generic', 'variadic', 'inferred-method', 'inferred-decorated', 'inferred-cursor'):
+        for style in ('inferred', 'explicit', 'explicit-generic', 'variadic', 'inferred-method', 'inferred-decorated', 'inferred-cursor', 'variadic-other-negative'):
             for yv in (False, True):
                 del OPEN_CURSORS[:]
-                if style in ('inferred-method', 'inferred-decorated', 'inferred-cursor') and yv is False:
+                if style in ('inferred-method', 'inferred-decorated', 'inferred-cursor', 'variadic-other-negative') and yv is False:
                     continue
                 acc.n['evaluations'] += 1
                 acc.n['validated'] += 1
